@@ -1,6 +1,6 @@
 (* Router.v — model of ombott/router/radidict.py (RadiDict) and
    ombott/router/radirouter.py (Route, RadiRouter) plus Ombott.to_route/handler
-   (ombott.py:121, 235).  Faithful to the tree WITH fixes F1 F2 F14 F15 F20.
+   (ombott.py:121, 235).  Faithful to the tree WITH fixes F1 F2 F14 F15 F33.
 
    Deliberate departures from the code's shape (licensed by the correspondence
    check, see DESIGN 2.1):
@@ -504,7 +504,7 @@ Definition ends_star (s : str) : bool :=
   match rev s with c :: _ => N.eqb c STAR | [] => false end.
 
 (* RadiDict.remove; None = RadiDictError raised before any change.
-   exact = fix F20: a Route object (found by name) is removed exactly even if
+   exact = fix F33: a Route object (found by name) is removed exactly even if
    its pattern ends with '*' *)
 Definition rd_remove (root : node) (pattern : str) (hooks_only exact : bool) : option node :=
   let wild := ends_star pattern && negb exact in
